@@ -1,41 +1,49 @@
 import UrcuVerif.Lfq.InvStep
+/-! `Inv` is preserved by every step: allocation, the successful CASes, reclamation. -/
 namespace UrcuVerif.Lfq
 
-theorem inv_enqCall {c s s' t o n} (h : Inv c s) (st : step c s t (.enqCall n) = some (s', o)) : Inv c s' := by
-  have segc : ∀ v, n ∉ s.chain → Seg (upd s.next n v) s.head s.chain := fun v hn =>
+theorem inv_enqCallS {c s t n} (h : Inv c s) (hp : s.pc t = .idle) (hc : (s.cs t).isSome) (n0 : n ≠ 0)
+    (hf : s.life n = .fresh) : Inv c (enqCallS s t n) := by
+  have hn : n ∉ s.chain := fun e => by have := (h.inq_iff _).mpr e; simp [hf] at this
+  have segc : Seg (upd s.next n 0) s.head s.chain :=
     seg_congr h.seg (by intro x hx; have : x ≠ n := fun e => hn (e ▸ hx); simp [upd, this])
-  have filt : ∀ v : Bool, n ∉ s.chain →
-      s.chain.filter (fun p => !(if p = n then v else s.isDummy p)) = s.chain.filter (fun p => !s.isDummy p) :=
-    fun v hn => filter_congr' (by intro x hx; have : x ≠ n := fun e => hn (e ▸ hx); simp [this])
+  have filt : s.chain.filter (fun p => !(if p = n then false else s.isDummy p)) = s.chain.filter (fun p => !s.isDummy p) :=
+    filter_congr' (by intro x hx; have : x ≠ n := fun e => hn (e ▸ hx); simp [this])
   have tlL := h.tl_live; have hdL := h.hd_live; have nextMem := h.next_mem
   simp only [HoldsTl, HoldsHd] at tlL hdL
-  inv_open h; inv_dbg st
-  rw [filt false (by grind)]; assumption
+  inv_open h; simp only [enqCallS]; inv_close
 
-theorem inv_casNext {c s s' t o} (h : Inv c s) (st : step c s t .casNext = some (s', o)) : Inv c s' := by
-  have key : s.pc t = .eCas → s.next (s.tl t) = 0 →
-      s.tl t ∈ s.chain ∧ s.tl t = s.tail ∧ s.node t ∉ s.chain ∧
-      Seg (upd s.next (s.tl t) (s.node t)) s.head (s.chain ++ [s.node t]) ∧ (s.chain ++ [s.node t]).Nodup := by
-    intro hp h0
-    have l1 := h.tl_live t (by simp [HoldsTl, hp])
-    have l2 : s.life (s.tl t) = .inq := by
-      rcases l1 with r | r
-      · exact r
-      · exact absurd h0 (h.rem_next _ r)
-    have m := (h.inq_iff _).mp l2
-    have ⟨n1, n2, n3⟩ := h.e_node t (by simp [Owns, hp])
-    have nm : s.node t ∉ s.chain := fun e => by have := (h.inq_iff _).mpr e; simp [n1] at this
-    refine ⟨m, ?_, nm, seg_snoc h.seg h.nodup m h0 nm n3 n2, ?_⟩
-    · rcases h.e_cas t hp with r | r
-      · exact r
-      · exact absurd h0 r
-    · rw [List.nodup_append]
-      refine ⟨h.nodup, by simp, ?_⟩
-      intro a ha b hb
-      simp at hb; subst hb
-      intro e; exact nm (e ▸ ha)
+theorem inv_casNextFail {c s t} (h : Inv c s) (hp : s.pc t = .eCas) (h0 : s.next (s.tl t) ≠ 0) :
+    Inv c (casNextFail s t) := by
+  have tlL := h.tl_live t (by simp [HoldsTl, hp])
+  inv_open h; simp only [casNextFail]; inv_close
+
+theorem casNext_facts {c s t} (h : Inv c s) (hp : s.pc t = .eCas) (h0 : s.next (s.tl t) = 0) :
+    s.tl t ∈ s.chain ∧ s.tl t = s.tail ∧ s.node t ∉ s.chain ∧ s.life (s.tl t) = .inq ∧
+    Seg (upd s.next (s.tl t) (s.node t)) s.head (s.chain ++ [s.node t]) ∧ (s.chain ++ [s.node t]).Nodup := by
+  have l1 := h.tl_live t (by simp [HoldsTl, hp])
+  have l2 : s.life (s.tl t) = .inq := by
+    rcases l1 with r | r
+    · exact r
+    · exact absurd h0 (h.rem_next _ r)
+  have m := (h.inq_iff _).mp l2
+  have ⟨n1, n2, n3⟩ := h.e_node t (by simp [Owns, hp])
+  have nm : s.node t ∉ s.chain := fun e => by have := (h.inq_iff _).mpr e; simp [n1] at this
+  refine ⟨m, ?_, nm, l2, seg_snoc h.seg h.nodup m h0 nm n3 n2, ?_⟩
+  · rcases h.e_cas t hp with r | r
+    · exact r
+    · exact absurd h0 r
+  · rw [List.nodup_append]
+    refine ⟨h.nodup, by simp, ?_⟩
+    intro a ha b hb
+    simp at hb; subst hb
+    intro e; exact nm (e ▸ ha)
+
+theorem inv_casNextOk {c s t} (h : Inv c s) (hp : s.pc t = .eCas) (h0 : s.next (s.tl t) = 0) :
+    Inv c (casNextOk s t) := by
+  have ⟨f1, f2, f3, f4, f5, f6⟩ := casNext_facts h hp h0
   have tlL := h.tl_live; have hdL := h.hd_live; have nextMem := h.next_mem; have lastU := h.last_unique
   simp only [HoldsTl, HoldsHd] at tlL hdL
-  inv_open h; inv_dbg st
+  inv_open h; simp only [casNextOk]; inv_dbg
 
 end UrcuVerif.Lfq
